@@ -168,6 +168,28 @@ no second request on the stream) -/
 def noLaterBlocks (f : Frame) (after : List Frame) : Bool :=
   ((after.drop (contCount f after)).filter (fun g => g.sid == f.sid)).all (fun g => !isHeaders g && !isContinuation g)
 
+/-- frames before the message's HEADERS frame -/
+def beforePrimary (frames : List Frame) : List Frame := frames.takeWhile (fun g => !isMsgHeaders g)
+
+/-- no CONTINUATION frame on the message's stream precedes its HEADERS frame -/
+def noStrayContinuation (f : Frame) (frames : List Frame) : Bool :=
+  (beforePrimary frames).all (fun g => !(isContinuation g && g.sid == f.sid))
+
+/-! ### projections of the code's output records onto what the statement lists -/
+
+def reqCore (r : Request) : ReqCore :=
+  { method := r.method, path := r.path, authority := r.authority, scheme := r.scheme,
+    headers := r.headers, cookies := r.cookies, referer := r.referer }
+
+def obsReqCore (o : ObsRequest) : ObsReqCore :=
+  { method := o.method, uri := o.uri, headers := o.headers, cookies := o.cookies, referer := o.referer,
+    userAgent := o.userAgent, lang := o.lang, horder := o.horder, habsent := o.habsent, expsw := o.expsw }
+
+def respCore (r : Response) : RespCore := { status := r.status, headers := r.headers }
+
+def obsRespCore (o : ObsResponse) : ObsRespCore :=
+  { status := o.status, headers := o.headers, horder := o.horder, habsent := o.habsent, expsw := o.expsw }
+
 end Huginn.Spec.H2Message
 
 /-! ### known-finding classes of C16 -/
@@ -192,8 +214,9 @@ the lower-cased name with the Title-Case list entries, so the rule never applies
 def listCase (optionalList skipList : List Bytes) (hs : List Hdr) : Bool :=
   hs.any (fun h => inListIgnoreCase optionalList h.name || inListIgnoreCase skipList h.name)
 
-/-- a regular field (other than cookie) has an empty value: reported as "no value" -/
-def emptyValue (fields : List Field) : Bool :=
-  (regular (textFields fields)).any (fun h => h.value == some [] && !isCookie h)
+/-- a regular field has an empty value: reported as "no value" (request cookie fields excepted: an
+empty cookie field carries no cookie either way) -/
+def emptyValue (isReq : Bool) (fields : List Field) : Bool :=
+  (regular (textFields fields)).any (fun h => h.value == some [] && !(isReq && isCookie h))
 
 end Huginn.KF.C16
